@@ -316,7 +316,8 @@ def apply_scale(spec, pat):
         p["loc"] = [v * a for v in p["loc"]]
         p["scale"] = p["scale"] * float(pow2(ka + kp))
         spec["beta"] = spec["beta"] * float(pow2(2 * ka))
-    spec["xcurs"] = [[v * a for v in xc] for xc in spec["xcurs"]]
+    if spec["kind"] == "ugla":
+        spec["xcurs"] = [[v * a for v in xc] for xc in spec["xcurs"]]      # RTO: build_rto puts the states at the posterior's scale
     return spec
 
 
@@ -1038,6 +1039,13 @@ def build_rto(cuqi, rng, cellspec):
         Hf = np.array([[float(v) for v in row] for row in H])
         if not np.all(np.isfinite(Hf)) or np.linalg.cond(Hf) > 2e3:
             continue
+        # current states at the natural scale of the posterior (a chain's state is a draw): power of two next to
+        # max(|posterior mean|, largest posterior standard deviation), both exact
+        mean_f, cov_f = f_solve_inv(H, r)
+        sx = max(max(abs(float(v)) for v in mean_f), math.sqrt(max(float(cov_f[i][i]) for i in range(len(cov_f)))))
+        sx = float(2.0 ** round(math.log2(sx)))
+        spec["xcurs"] = [[v * sx for v in xc] for xc in spec["xcurs"]]
+        spec["xscale"] = sx
         rows_prior = spec["n"] if pr["kind"] != "joint" else sum(len(b["S"]) for b in pr["blocks"])
         p = sum(len(l["b"]) for l in spec["liks"]) + rows_prior
         spec["estar"] = rand_dyadic_vec(rng, p, 2, -2, 2)
